@@ -132,6 +132,7 @@ class Run:
         path = os.path.join(d, "%s_%d_%d.json" % (self.pid, self.seed, len(self.violations)))
         replay_obj = dict(replay_obj)
         replay_obj["property"] = self.pid
+        replay_obj["seed"] = self.seed
         replay_obj["what"] = text
         common.write_json(path, replay_obj)
         self.violations.append((path, text, found_input))
@@ -150,7 +151,11 @@ class Run:
         ev = {"property_id": self.pid, "tier": self.tier, "seed": self.seed, "level": level, "coverage": self.cov,
               "assumptions": list(TRUSTED_BASE) + list(extra_assumptions),
               "wall_s": round(time.time() - self.t0, 2), "violations": len(self.violations)}
-        common.write_json(os.path.join(VERIF, "evidence", "%s.json" % self.pid), ev)
+        # BT_VERIF_EVIDENCE_DIR: where tools/seed_pass.py sends the evidence of runs against a patched /repo, so that the
+        # committed evidence always describes the unchanged tree
+        edir = os.environ.get("BT_VERIF_EVIDENCE_DIR") or os.path.join(VERIF, "evidence")
+        os.makedirs(edir, exist_ok=True)
+        common.write_json(os.path.join(edir, "%s.json" % self.pid), ev)
         for f in load_known():
             if f["property"] == self.pid and f.get("status") == "open":
                 seen = f["discriminator"] in self.known_seen
